@@ -107,3 +107,8 @@ func VerifFanIn(ctx context.Context, channels ...chan *vss.Signature) chan *vss.
 func (d *DosNode) VerifHandleGrouping(participants [][]byte, groupID string) {
 	d.handleGrouping(participants, groupID)
 }
+
+// VerifHandleCR runs the commit-reveal handler with the given seed object.
+func (d *DosNode) VerifHandleCR(cr *onchain.LogStartCommitReveal, randSeed *big.Int) {
+	d.handleCR(cr, randSeed)
+}
